@@ -20,9 +20,9 @@ NT == Len(Traces)
 VARIABLES tid, l, viol
 tvars == <<vars, tid, l, viol>>
 
-Range(s) == {s[i] : i \in 1..Len(s)}
+SeqRange(s) == {s[i] : i \in 1..Len(s)}
 \* JSON arrays are sequences; the chain model uses sets of node positions
-NormQ(j) == IF j.kind = "chain" THEN [kind |-> "chain", xb |-> Range(j.xb), ya |-> Range(j.ya), h |-> j.h] ELSE j
+NormQ(j) == IF j.kind = "chain" THEN [kind |-> "chain", xb |-> SeqRange(j.xb), ya |-> SeqRange(j.ya), h |-> j.h] ELSE j
 
 AllIn(s, S) == \A i \in 1..Len(s) : s[i] \in S
 
